@@ -331,9 +331,9 @@ def synthetic_strategy(tier):
 
 
 FAMILIES = [
-    Family('shipped-schemes', check_any, strategy=lambda tier: shipped_case(), n=(1400, 150000)),
-    Family('synthetic-schemes', check_any, strategy=synthetic_strategy, n=(400, 40000)),
+    Family('shipped-schemes', check_any, strategy=lambda tier: shipped_case(), n=(3000, 150000)),
+    Family('synthetic-schemes', check_any, strategy=synthetic_strategy, n=(1000, 40000)),
     Family('small-molecules-exhaustive', check_any, enumerate=enum_small),
     Family('pattern-witnesses', check_any, enumerate=enum_witnesses),
-    Family('coverage-guided', check_any, stateful=run_guided, n=(16 * 250, 16 * 20000)),
+    Family('coverage-guided', check_any, stateful=run_guided, n=(16 * 600, 16 * 20000)),
 ]
